@@ -65,6 +65,42 @@ class Stats:
 STATS = Stats()
 
 
+import threading
+
+
+_watch = {'deadline': None, 'ctx': None, 'thread': None, 'pid': None}
+
+
+def _watchdog():
+    while True:
+        time.sleep(0.5)
+        d = _watch['deadline']
+        if d is not None and time.time() > d:
+            _watch['deadline'] = None
+            try:
+                _watch['ctx'].interrupt()
+            except Exception:      # noqa
+                pass
+
+
+def timed_check(solver, timeout_ms):
+    """solver.check() with a hard wall-clock limit (nlsat does not always honour 'timeout'):
+    a watchdog thread interrupts the context 2 s after the soft limit"""
+    import os
+    if _watch['thread'] is None or _watch['pid'] != os.getpid():
+        t = threading.Thread(target=_watchdog, daemon=True)
+        t.start()
+        _watch['thread'], _watch['pid'] = t, os.getpid()
+    _watch['ctx'] = solver.ctx
+    _watch['deadline'] = time.time() + timeout_ms / 1000.0 + 2.0
+    try:
+        return solver.check()
+    except z3.Z3Exception:
+        return z3.unknown
+    finally:
+        _watch['deadline'] = None
+
+
 class Engine:
     def __init__(self, assumptions=(), timeout_ms=20000, max_paths=200000):
         self.assumptions = list(assumptions)
@@ -124,7 +160,7 @@ class Engine:
                 self.solver.add(c)
             for c in extra:
                 self.solver.add(c)
-            r = self.solver.check()
+            r = timed_check(self.solver, self.timeout_ms)
         finally:
             self.solver.pop()
             STATS.queries += 1
@@ -191,7 +227,7 @@ class Engine:
                 try:
                     for a in self.assumptions + sx.const_assumptions() + self.pc + sx.path_defs() + excl:
                         self.solver.add(a)
-                    r = self.solver.check()
+                    r = timed_check(self.solver, self.timeout_ms)
                     if r == z3.unknown:
                         raise Inconclusive('unknown in choose')
                     if r == z3.unsat:
@@ -249,7 +285,7 @@ class Engine:
                     s.add(a)
                 s.add(sx.BoolZ(neg))
                 s.set('timeout', min(self.timeout_ms, 4000))
-                r0 = s.check()
+                r0 = timed_check(s, min(self.timeout_ms, 4000))
             finally:
                 s.set('timeout', self.timeout_ms)
                 s.pop()
@@ -265,7 +301,7 @@ class Engine:
             s.add(sx.BoolZ(neg))
             if len(STATS.samples) < 3:
                 STATS.samples.append({'label': label, 'smt2': s.to_smt2()[:1500]})
-            r = s.check()
+            r = timed_check(s, self.timeout_ms)
             model = s.model() if r == z3.sat else None
         finally:
             s.pop()
